@@ -11,7 +11,11 @@ observed : cwres/swres=<w>.<j>.<n>.<err>,…   result of every Write / WriteTo c
                                               that was blocked when Close came
            chunks=<hex>,…                     (read) every chunk returned to any reader
            dg=<hex>,…                         (dgram) every datagram returned by ReadFrom (sorted)
+           bad=<r>,…                          (dgram) results of the WriteTo calls to a foreign address (not judged:
+                                              the property does not say how they fail; the Close that follows must return)
            call=<r> close=<r>                 (silent) the parked call and the Close that must unblock it
+           call=<r> set=<r>                   (stall) the call parked in the transport and the deadline setter /
+                                              Close issued from another goroutine (`-` = never returned)
            ran=<n> res=… echo same swres sstream  (switch) the first suspicious of n first-use trials, else the last
            dead=0|1 panic=<msg|-> races=<n|na> sites=<…>
 
@@ -104,10 +108,11 @@ def streamVerdict (name : String) (cs : List (Nat × Nat × Nat)) (res stream : 
   | _, _ => some ("shape", s!"missing {name} results/stream")
 
 /-- model parameters regenerated from the Go AST: is everything `Write` does after the handshake
-ONE `out` section; does handshakeContext re-check under its mutex -/
+ONE `out` section taken outside the record loop (`out.Lock(); loop { transport write };
+out.Unlock()`); does handshakeContext re-check under its mutex -/
 def atomicWrite (stack : String) : Bool :=
-  let progs := if stack == "dtlcp" then Facts.dtlcp.lockProgs else Facts.tlcp.lockProgs
-  Model.Locks.tailAfterHandshake (Model.Locks.lookupProg progs "Write") == [(0, 2), (2, 0), (1, 2)]
+  let secs := if stack == "dtlcp" then Facts.dtlcp.lockWriteSections else Facts.tlcp.lockWriteSections
+  Model.Locks.sectionEvents (Model.Locks.lookupProg secs "Write") == [(0, 2), (10, 0), (2, 0), (11, 0), (1, 2)]
 
 def recheck (stack : String) : Bool :=
   if stack == "dtlcp" then Facts.dtlcp.hsRecheckUnderMutex else Facts.tlcp.hsRecheckUnderMutex
@@ -135,6 +140,17 @@ def judge (c o : String) : Option Verdict := do
     if scen == "write" then
       firstSome [streamVerdict "client→server" (calls 0 cw) (kv ot "cwres") (kv ot "cstream"),
                  streamVerdict "server→client" (calls 100 sw) (kv ot "swres") (kv ot "sstream")]
+    else if scen == "whole" then
+      streamVerdict "client→server" (calls 0 cw) (kv ot "cwres") (kv ot "cstream")
+    else if scen == "stall" then
+      -- `-` (never returned) comes with dead=1 and is judged as a deadlock below
+      let call := (kv ot "call").getD "-"
+      let how := (kv ct "how").getD "?"
+      if call == "-" || (kv ot "set").getD "-" == "-" then none
+      else if how == "close" then
+        (if call == "ok" then some ("close-unblock", "the call parked in the transport reported success after Close") else none)
+      else if call == "timeout" then none
+      else some ("deadline-unblock", s!"the call parked in the transport returned {call}, not a timeout, after its deadline had passed")
     else if scen == "first" then
       let chs := items ((kv ot "chs").getD "-")
       let shs := items ((kv ot "shs").getD "-")
@@ -199,7 +215,9 @@ def judge (c o : String) : Option Verdict := do
   -- behaviours the lock model admits, otherwise the violated clause
   let model :=
     if modelOk then o
-    else if dead != "0" then "dead=0 (the lock protocol has no reachable deadlock: C13_lock_order_acyclic)"
+    else if dead != "0" then
+      (if scen == "stall" then "dead=0 (a deadline setter / Close needs no mutex held across transport I/O: C13_deadline_setters_never_wait, C13_close_never_waits_for_handshake)"
+       else "dead=0 (the lock protocol has no reachable deadlock: C13_lock_order_acyclic)")
     else if pan != "-" then "panic=-"
     else match protocol with
       | some (tag, _) => s!"no-{tag}"
